@@ -10,6 +10,11 @@
     csv                  — string matrices (incl. the guarded shapes) and raw CSV text;
     bits                 — integers up to 2^53 and sets of bit positions;
     float stream         — documents with fractional / huge numbers: implementation-side law only (`law`).
+    multi-step programs  — ONE configured codec value (json/yaml/csv encoder(cfg)/decoder(cfg), //encoding.bytes)
+                           bound by `let` and applied 2–4 times (lets, `>>` over an array, `=>` over a set, tuple,
+                           nested, vs. the plain function) to documents of different lengths, every result
+                           inspected afterwards; codec functions are pure, so the expectation is the collection of
+                           the individual model results (catches state shared between calls, e.g. a reused buffer).
 -/
 import Arrai.C13.Render
 
@@ -516,11 +521,172 @@ def floatCase (id : String) (c : Codec) (strict : Bool) (t : Key) : Case :=
 def jsonC : Codec := ⟨"json", false⟩
 def yamlC : Codec := ⟨"yaml", true⟩
 
+/-! ### multi-step programs: ONE codec value bound by `let` and applied several times, every result
+inspected afterwards.  Codec functions are pure, so the expected observable is the collection of the
+individual results. -/
+
+def jsonEncCfgs (strict : Bool) : List String :=
+  if strict then ["()", "(strict: true)", "(indent: '  ')", "(prefix: ' ', indent: ' ')", "(escapeHTML: true)"]
+  else ["(strict: false)", "(strict: false, indent: ' ')"]
+def yamlEncCfgs (strict : Bool) : List String :=
+  if strict then ["()", "(indent: 2)", "(strict: true)"] else ["(strict: false)", "(strict: false, indent: 2)"]
+def decCfgs (strict : Bool) : List String := if strict then ["()", "(strict: true)"] else ["(strict: false)"]
+def csvEncCfgs : List String := ["()", "(comma: 44)", "(crlf: false)"]
+def csvDecCfgs : List String :=
+  ["()", "(comma: 44)", "(fieldsPerRecord: 0)", "(lazyQuotes: false)", "(trimLeadingSpace: false)"]
+
+/-- observable of a collection of results: an error anywhere is an error of the program -/
+def collect (mk : List V → V) (rs : List (Out R)) : String :=
+  if rs.all Out.isOk then
+    (mk (rs.map (fun r => match r with | .ok v => v.den | _ => V.none))).canon
+  else if rs.any (fun r => match r with | .panic => true | _ => false) then "panic" else "error"
+
+def mkTupV (vs : List V) : V :=
+  V.mkTup ((["first", "second", "third", "fourth"].zip vs) ++ (match vs with | v :: _ => [("again", v)] | [] => []))
+
+def letsSrc (pre : String) (n : Nat) (f : Nat → String) : String :=
+  String.join ((List.range n).map (fun i => s!"let {pre}{i} = {f i}; "))
+
+def listSrc (n : Nat) (f : Nat → String) : String := ", ".intercalate ((List.range n).map f)
+
+/-- the program shapes; `ds` = document/matrix literals, `enc`/`dec` = the names bound to the codec values -/
+def multiSrc (shape : Nat) (ds : List String) : String × Nat :=
+  let n := ds.length
+  let d (i : Nat) : String := ds.getD i "{}"
+  match shape with
+  | 0 =>  -- every encoding is computed before any of them is read back
+    (letsSrc "v" n (fun i => s!"dec({d i})") ++ letsSrc "e" n (fun i => s!"enc(v{i})") ++
+      "[" ++ listSrc n (fun i => s!"dec(e{i})") ++ "]", 0)
+  | 1 => ("[" ++ ", ".intercalate ds ++ "] >> dec(.) >> enc(.) >> dec(.)", 0)
+  | 2 => ("((" ++ "{" ++ ", ".intercalate ds ++ "} => dec(.)) => enc(.)) => dec(.)", 1)
+  | _ =>
+    (letsSrc "e" n (fun i => s!"enc(dec({d i}))") ++
+      "(" ++ listSrc n (fun i => s!"{["first", "second", "third", "fourth"].getD i "x"}: dec(e{i})") ++
+      ", again: dec(e0))", 2)
+
+def multiCls (c : Codec) (strict : Bool) (js : List J) : String :=
+  if c.yaml && js.any J.hasDupKeys then "good"
+  else if c.yaml && js.any J.yamlFragile then "KF-yaml-block-scalar"
+  else if !strict && js.any J.hasEmptyish then "KF-json-nonstrict-empty"
+  else "good"
+
+def genDocs (depth : Nat) : Gen (List J) := do
+  let n ← rand 3
+  -- one long document and n+1 short ones, in a random position: a shared buffer shows when a shorter
+  -- encoding follows a longer one
+  let long ← genJ (depth + 1)
+  let shorts ← genList (n + 1) (do genJ (← rand 2))
+  let pos ← rand (n + 2)
+  pure (shorts.take pos ++ [long] ++ shorts.drop pos)
+
+def multiDocCase (id : String) (c : Codec) (strict : Bool) (js : List J) (shape : Nat)
+    (encCfg decCfg : String) (escAll : Bool) : Case :=
+  let dup (j : J) := c.yaml && j.hasDupKeys
+  let ms := js.map (fun j => if dup j then Out.err else reDecode strict j)
+  let ss := js.map (fun j => if dup j then Out.err else Out.ok (toArrai strict j))
+  let ds := js.map (docLit c escAll false)
+  let pre := s!"let enc = //encoding.{c.name}.encoder({encCfg}); let dec = //encoding.{c.name}.decoder({decCfg}); "
+  let strat := c.name ++ "/multi/" ++ (["lets", "seq-map", "set-map", "tuple"].getD shape "tuple")
+  if shape == 4 then
+    -- the configured encoder (default configuration) writes the same bytes as the plain function, call after call
+    let ok := ms.all Out.isOk
+    let o := if ok then "ok" else "error"
+    { id := id, cls := "good", kind := "law", stratum := c.name ++ "/multi/encoder-vs-encode", model := o, spec := o,
+      payload := [s!"let enc = //encoding.{c.name}.encoder(()); let vs = [{", ".intercalate ds}] >> //encoding.{c.name}.decode(.); "
+        ++ s!"(l: vs >> enc(.), r: vs >> //encoding.{c.name}.encode(.))"] }
+  else if shape == 5 then
+    let ms := js.map (fun j => if dup j then Out.err else reDecode true j)
+    let ss := js.map (fun j => if dup j then Out.err else Out.ok (toArrai true j))
+    evalCase id (c.name ++ "/multi/plain-functions") (multiCls c true js)
+      (s!"[{", ".intercalate ds}] >> //encoding.{c.name}.decode(.) >> //encoding.{c.name}.encode(.) >> " ++
+        s!"//encoding.{c.name}.decode(.)")
+      (collect V.mkArr ms) (collect V.mkArr ss)
+  else if shape == 6 then
+    -- nested: an encoding is decoded inside the argument of another application of the same encoder (strict)
+    let j0 := js.headD .null
+    let j1 := js.getD 1 .null
+    let bad := dup j0 || dup j1
+    let inner := if bad then Out.err else reDecode true j1
+    let outerOf (w : Out R) : Out R :=
+      match w with
+      | .ok w1 => (fromArrai true (.tuple [(kA, R.newArray [toArrai true j0, w1])])).map (toArrai true)
+      | e => e
+    let m := collect V.mkArr [outerOf inner, inner]
+    let sp := collect V.mkArr
+      [if bad then Out.err else Out.ok (.tuple [(kA, R.newArray [toArrai true j0, toArrai true j1])]),
+       if bad then Out.err else Out.ok (toArrai true j1)]
+    let d0 := ds.headD "{}"
+    let d1 := ds.getD 1 "{}"
+    evalCase id (c.name ++ "/multi/nested") (multiCls c true [j0, j1])
+      (s!"let enc = //encoding.{c.name}.encoder({encCfg}); let dec = //encoding.{c.name}.decoder({decCfg}); " ++
+        s!"let inner = enc(dec({d1})); let outer = enc((a: [dec({d0}), dec(inner)])); [dec(outer), dec(inner)]")
+      m sp
+  else
+    let (body, kind) := multiSrc shape ds
+    let mk : List V → V := if kind == 0 then V.mkArr else if kind == 1 then V.mkSet else mkTupV
+    evalCase id strat (multiCls c strict js) (pre ++ body) (collect mk ms) (collect mk ss)
+
+def genMatrices : Gen (List (List (List Key))) := do
+  let n ← rand 3
+  let big ← genList 3 (genList 3 genField)
+  let smalls ← genList (n + 1) genMatrix
+  let pos ← rand (n + 2)
+  pure (smalls.take pos ++ [big] ++ smalls.drop pos)
+
+def multiCsvCase (id : String) (ms : List (List (List Key))) (shape : Nat) (encCfg decCfg : String) : Case :=
+  let vs := ms.map Csv.matrixR
+  let model := vs.map Csv.roundTrip
+  let spec := vs.map Out.ok
+  let cls := if ms.all Spec.csvOk then "good" else "KF-csv-stdlib"
+  let ds := vs.map R.src
+  let n := ds.length
+  let d (i : Nat) : String := ds.getD i "{}"
+  let pre := s!"let enc = //encoding.csv.encoder({encCfg}); let dec = //encoding.csv.decoder({decCfg}); "
+  match shape with
+  | 0 =>
+    evalCase id "csv/multi/lets" cls
+      (pre ++ letsSrc "e" n (fun i => s!"enc({d i})") ++ "[" ++ listSrc n (fun i => s!"dec(e{i})") ++ "]")
+      (collect V.mkArr model) (collect V.mkArr spec)
+  | 1 =>
+    evalCase id "csv/multi/seq-map" cls (pre ++ "[" ++ ", ".intercalate ds ++ "] >> enc(.) >> dec(.)")
+      (collect V.mkArr model) (collect V.mkArr spec)
+  | 2 =>
+    evalCase id "csv/multi/plain-functions" cls
+      ("[" ++ ", ".intercalate ds ++ "] >> //encoding.csv.encode(.) >> //encoding.csv.decode(.)")
+      (collect V.mkArr model) (collect V.mkArr spec)
+  | _ =>
+    let o := "ok"
+    { id := id, cls := "good", kind := "law", stratum := "csv/multi/encoder-vs-encode", model := o, spec := o,
+      payload := [s!"let enc = //encoding.csv.encoder(()); let ms = [{", ".intercalate ds}]; "
+        ++ "(l: ms >> enc(.), r: ms >> //encoding.csv.encode(.))"] }
+
+def genMultiCase (id : String) (depth : Nat) : Gen Case := do
+  let r ← rand 20
+  if r < 14 then
+    let c ← pick [jsonC, jsonC, yamlC]
+    let strict ← chance 3 4
+    let js ← genDocs depth
+    let shape ← rand 7
+    let strict := if shape ≥ 4 then true else strict
+    let encCfg ← pick (if c.yaml then yamlEncCfgs strict else jsonEncCfgs strict)
+    let decCfg ← pick (decCfgs strict)
+    pure (multiDocCase id c strict js shape encCfg decCfg (← chance 1 3))
+  else if r < 19 then
+    pure (multiCsvCase id (← genMatrices) (← rand 4) (← pick csvEncCfgs) (← pick csvDecCfgs))
+  else
+    -- //encoding.bytes.decode is the identity on byte arrays, however often it is applied
+    let ts ← genList 3 (genAsciiStr 6)
+    let lits := ts.map bytesLit
+    let o := (V.mkArr (ts.map (fun t => (R.bytes 0 (utf8s t)).den))).canon
+    pure (evalCase id "bytes/multi" "good"
+      ("let dec = //encoding.bytes.decode; [" ++ ", ".intercalate lits ++ "] >> dec(.) >> dec(.)") o o)
+
 def genCase (idx : Nat) (big : Bool) : Gen Case := do
   let id := s!"C13-{idx}"
   let depth := if big then 3 else 2
-  let r ← rand 100
-  if r < 30 then
+  let r ← rand 114
+  if r ≥ 100 then genMultiCase id (depth - 1)
+  else if r < 30 then
     let j ← genJ depth
     docCase id jsonC j (← rand 6) (← chance 1 3) (← chance 1 3) |> pure
   else if r < 45 then
@@ -602,6 +768,14 @@ def corpus : List Case :=
     docCase "C13-corpus-28" jsonC (.obj [([97], .num 1), ([97], .num 2)]) 0 false false,
     docCase "C13-corpus-29" jsonC (.str [0x1F600, 34, 92, 0, 0x2028]) 2 true false,
     docCase "C13-corpus-30" yamlC (.str [0x1F600, 34, 92, 0, 0x2028, 0x85]) 2 false false,
+    -- one encoder value applied twice: the first result must survive the second call
+    evalCase "C13-corpus-40" "json/multi/corpus" "good"
+      ("let enc = //encoding.json.encoder(()); let d = //encoding.json.decode; " ++
+       "let first = enc(d('{\"a\":[1,2,3],\"b\":\"text\"}')); let second = enc(d('[null]')); [d(first), d(second)]")
+      (V.mkArr [(toArrai true (.obj [([97], .arr [.num 1, .num 2, .num 3]), ([98], .str [116, 101, 120, 116])])).den,
+                (toArrai true (.arr [.null])).den]).canon
+      (V.mkArr [(toArrai true (.obj [([97], .arr [.num 1, .num 2, .num 3]), ([98], .str [116, 101, 120, 116])])).den,
+                (toArrai true (.arr [.null])).den]).canon,
     -- configuration forms of the codecs
     evalCase "C13-corpus-34" "corpus" "good"
       "//encoding.json.decode(//encoding.json.encode_indent((a: [1, (s: 'x<>&'), {'k': ()}])))"
